@@ -49,7 +49,7 @@ class C13(object):
             "with or without the optional `marginal` (uniform, positive, with exact zeros, a point mass, entries of 1e-11 / "
             "1e-14; trim=False so that every input letter is present), rtol / atol left to the defaults or passed. "
             "Sequences of 1-5 blahut_arimoto calls in one process (rd-seq) on sources over 2-4 letters that may contain "
-            "letters of probability exactly 0 (Hamming; residual-entropy only on strictly positive sources), every call of "
+            "letters of probability exactly 0 (Hamming and residual-entropy distortion), every call of "
             "the sequence certified on its own. "
             "Non-trivial = at least 2 inputs and 2 outputs with a non-degenerate channel")
     tolerances = {'reported value = definition on the returned input / joint': '1e-7',
@@ -167,10 +167,10 @@ class C13(object):
         steps = []
         for _ in range(rng.randint(1, 5)):
             ni = n if rng.random() < 0.85 else rng.randint(2, 4)
-            # the residual-entropy distortion is -log of conditional probabilities of the joint: on a source with an
-            # impossible letter the unchanged code reports nan (reported separately), so it only gets positive sources
-            dist = rng.choice(['hamming', 'hamming', 'hamming', 'residual'])
-            steps.append({'p': self.rand_source(rng, ni, dist == 'hamming'), 'dist': dist,
+            # (the residual-entropy distortion is -log of conditional probabilities of the joint: on a source with an
+            # impossible letter the code used to report nan - repaired, see KNOWN_FINDINGS - so it gets such sources too)
+            dist = rng.choice(['hamming', 'hamming', 'hamming', 'residual', 'residual'])
+            steps.append({'p': self.rand_source(rng, ni, dist == 'hamming' or rng.random() < 0.5), 'dist': dist,
                           'beta': rng.choice([0.0, 0.5, 1.0, 2.0, 3.5, 5.0, 8.0]),
                           'max_iters': rng.choice([100, 100, 100, 3])})
         return {'kind': 'rd-seq', 'steps': steps}
@@ -401,8 +401,15 @@ class C13(object):
             d = 1 - np.eye(n)
         else:
             with np.errstate(all='ignore'):
-                d = residual_entropy_distortion(np.array(p), q / q.sum(axis=1, keepdims=True))
+                # the conditional of an impossible input letter is undefined and carries no weight: any row will do
+                rows = q.sum(axis=1, keepdims=True)
+                cond = np.where(rows > 0, q / np.where(rows > 0, rows, 1.0), 1.0 / q.shape[1])
+                d = residual_entropy_distortion(np.array(p), cond)
                 d = np.where(np.isfinite(d), d, 0.0)
+                d[np.array(p) == 0] = 0.0
+            if not (np.isfinite(q).all() and math.isfinite(float(res.rate)) and math.isfinite(float(res.distortion))):
+                r.oracle_fail = 'rate %r, distortion %r, joint %s: not numbers' % (float(res.rate), float(res.distortion), q.tolist())
+                return None
         rate, dval = float(res.rate), float(res.distortion)
         mi = bits2f(drv.call('chanf', ['jointmi', [], fm(q), []]))
         ed = bits2f(drv.call('chanf', ['expdist', [], fm(q), fm(d)]))
